@@ -478,7 +478,9 @@ func c09historyCase(c *vf.Ctx, i int) {
 			it := c09item(r)
 			step = fmt.Sprintf("Add(%x)", it)
 			h.log = append(h.log, step)
-			arg := append(make([]byte, 0, len(it)+4), it...)
+			// the argument is a sub-slice of a larger buffer whose other bytes are not zero
+			backing := bytes.Repeat([]byte{0xff}, len(it)+8)
+			arg := append(backing[:0:len(it)+8], it...)
 			h.call("Add", func() { h.f.Add(arg) })
 			h.m.Add(it)
 			if h.m.Loaded {
@@ -515,6 +517,29 @@ func c09historyCase(c *vf.Ctx, i int) {
 					h.inserted = append(h.inserted, &c09ins{kind: 0, item: y})
 					fresh = append(fresh, y)
 					c.Inc("insert_colliding_with_previous_item_under_one_hash_function")
+				}
+			}
+			if h.m.Loaded && h.m.NHash > 0 && len(h.m.Bits) > 0 && r.Chance(1, 6) && !h.dead {
+				// an item constructed (MurmurHash3 is invertible) so that one of the
+				// filter's hash functions returns a value ON a boundary of the range
+				// reduction: exactly the number of bits, one off, a multiple, 0, 2^32-1
+				fi := uint32(r.Intn(int(h.m.NHash)))
+				seed := fi*0xFBA4C795 + h.m.Tweak
+				nb := uint32(len(h.m.Bits) * 8)
+				targets := []uint32{nb, nb - 1, nb + 1, 0, 1, 0xffffffff, 2 * nb, nb * (1 + uint32(r.Intn(1000))), 0xffffffff - 0xffffffff%nb, 0xffffffff - 0xffffffff%nb - 1}
+				tg := targets[r.Intn(len(targets))]
+				var first [4]byte
+				r.Fill(first[:])
+				y := ref.Murmur3Partner(seed, first, tg)
+				if ref.Murmur3(seed, y) == tg {
+					h.verify(step)
+					step = fmt.Sprintf("Add(%x) [hash function %d gives %d on a filter of %d bits]", y, fi, tg, nb)
+					h.log = append(h.log, step)
+					arg3 := append([]byte{}, y...)
+					h.call("Add", func() { h.f.Add(arg3) })
+					h.m.Add(y)
+					h.inserted = append(h.inserted, &c09ins{kind: 0, item: y})
+					c.Inc("insert_with_hash_value_on_a_range_reduction_boundary")
 				}
 			}
 		case op < 38: // AddHash
